@@ -152,7 +152,7 @@ def type_name(base):
 def check_set(ctx, obs):
     res = ctx.res
     g = obs['gen']
-    inp = {'seed': obs['seed'], 'texts': obs['texts']}
+    inp = {'seed': obs['seed'], 'texts': obs['texts'], 'run_set': obs.get('run_set')}
     for (mn, name), t in g.truth.items():
         doc = obs['json'].get(mn)
         if doc is None or '__invalid_json__' in doc:
@@ -291,7 +291,7 @@ def check_pysnmp_defaults(ctx, obs):
     defaultBinValue of `_<Name>_Type`) denotes the number the MIB gives, for integer-valued defaults"""
     res = ctx.res
     g = obs['gen']
-    inp = {'seed': obs['seed'], 'texts': obs['texts'], 'backend': 'pysnmp'}
+    inp = {'seed': obs['seed'], 'texts': obs['texts'], 'backend': 'pysnmp', 'run_set': obs.get('run_set')}
     for mn, m in g.modules.items():
         ex = obs['pysnmp'].get(mn)
         if not ex or ex.get('ns') is None:
@@ -383,8 +383,10 @@ def replay(payload):
             pass
         c = C()
         c.res = common.Result('C05', 'quick', 0)
-        check_pysnmp_defaults(c, cg.run_set(inp['seed'], backends=('pysnmp',), exotic_defvals=True, pysnmp_safe=True))
-        return {'fails': bool(c.res.oracle_failures), 'what': [f['what'] for f in c.res.oracle_failures[:5]]}
+        return cg.replay_regenerated('C05', dict(inp, run_set=inp.get('run_set') or dict(backends=['pysnmp'], exotic_defvals=True, pysnmp_safe=True)),
+                                     check_pysnmp_defaults, payload.get('key'))
+    if inp.get('run_set'):
+        return cg.replay_regenerated('C05', inp, check_set, payload.get('key'))
     texts = inp['texts']
     r, out, _ = pipeline.compile_set(texts, genTexts=True)
     bad = []
